@@ -60,6 +60,9 @@ func (r Result) Crashed() bool {
 
 // WriteFiles writes the case's files below dir (names may contain sub-directories).
 func WriteFiles(dir string, files map[string]string) error {
+	if err := os.MkdirAll(dir, 0o755); err != nil {
+		return err
+	}
 	for name, content := range files {
 		p := filepath.Join(dir, name)
 		if strings.Contains(name, "/") {
